@@ -269,8 +269,8 @@ class LoopMixin:
             changed = set()
             iter_state = head.fork()
             for s2, oc, g2 in run_iteration(iter_state, ghost):
-                # frame inference
-                for key, old in snap.items():
+                # frame inference: only paths that flow back to the loop head carry changes
+                for key, old in (snap.items() if isinstance(oc, (Normal, Continue)) else ()):
                     if key in mod_cells or key[0] not in s2.heap:
                         continue
                     o = s2.heap[key[0]]
